@@ -152,7 +152,7 @@ func captureRun(r *sim.R, focus string) *sim.Violation {
 			time.Sleep(d)
 		}
 		// wait until the wire is drained, then take the final snapshot of the in-memory flows
-		for {
+		for w.ctx.Err() == nil {
 			src := w.current("eth0")
 			if src == nil || src.Pending() == 0 {
 				break
@@ -189,7 +189,7 @@ func captureRun(r *sim.R, focus string) *sim.Violation {
 		return r.Report(&sim.Violation{Clause: "manager-fails-to-start", Signature: "single interface", Detail: initErr.Error()})
 	}
 	if stall != "" {
-		w.sc.Stop()
+		w.teardown(mgr)
 		return r.Report(&sim.Violation{Clause: "capture-stalls", Signature: "capture with rotations and status calls", Detail: stall})
 	}
 	w.teardown(mgr)
